@@ -506,6 +506,24 @@ pub fn gen_c08(base_seed: u64, batch: &str, run: u64, rng: &mut Rng) -> Scenario
         mock_panics_wanted: true,
     };
     let (mut threads, prelude) = gen_fine_history(rng, &cfg, &o);
+    // an error that originates in the output layer: a single-use tuple (borrowed element first, owned
+    // element later) requested more often than once
+    if rng.chance(1, 6) {
+        cfg.specials.push(Special::OwnTup1 { id: 140 });
+        let n = rng.range(2, 3);
+        for _ in 0..n {
+            let t = rng.usize(threads.len());
+            let slot = if t == 0 { 0 } else { t as u8 };
+            let lo = if t == 0 { prelude } else { 0 };
+            let hi = threads[t]
+                .iter()
+                .position(|o| matches!(o, Op::Wait { .. } | Op::Drop { .. } | Op::Verify { .. } | Op::Report { .. }))
+                .unwrap_or(threads[t].len())
+                .max(lo);
+            let at = rng.range(lo, hi);
+            threads[t].insert(at, Op::Own { slot, which: OwnKind::Tup1, x: 0, catch: true, die_with_value: false, fault: None });
+        }
+    }
     let st = Steer::new(&cfg);
     // some threads own their clone on their stack and die of an uncaught panic
     for t in 1..threads.len() {
@@ -605,13 +623,21 @@ pub fn check_c08(scn: &Scenario) -> Checked {
     if unfinished {
         return Checked { violations, stats, harness_error: None };
     }
-    let texts: Vec<String> = induced
+    let mut texts: Vec<String> = induced
         .iter()
         .map(|c| match &c.outcome {
             Some(Outcome::MockPanic(s)) => s.clone(),
             _ => unreachable!(),
         })
         .collect();
+    // requests for owned values (not routed through the call log) that the mock answered with a panic
+    for r in &res.log.ops {
+        if let (Some(Op::Own { .. }), OpResult::Panicked(msg)) = (scn.threads.get(r.thread as usize).and_then(|t| t.get(r.index as usize)), &r.result) {
+            if r.end_step < o.start_step {
+                texts.push(msg.clone());
+            }
+        }
+    }
     let user_panics = res.log.calls.iter().filter(|c| matches!(c.outcome, Some(Outcome::UserPanic(_))) && c.parent.is_none()).count();
     let key = match op {
         Op::Drop { .. } => "drop",
